@@ -153,7 +153,7 @@ def main():
     def lref(t):
         return ".byte" if t == "byte" else f"S.{t}"
 
-    L = ["-- GENERATED by bin/gen.d/schemas.py from " + SCHEMA_DIR + "/*.mol — do not edit.",
+    L = ["-- GENERATED by bin/gen.d/schemas.py from util/gen-types/schemas/*.mol of the repository tree — do not edit.",
          "import CkbVerif.Model.Molecule",
          "namespace CkbVerif.Gen.Schemas",
          "open CkbVerif.Molecule (Schema)",
@@ -190,7 +190,7 @@ def main():
     write_if_changed(os.path.join(VERIF, "lean", "CkbVerif", "Gen", "Schemas.lean"), "\n".join(L) + "\n")
 
     # ------------------------------------------------------------------ Rust glue
-    R = ["// GENERATED by bin/gen.d/schemas.py from " + SCHEMA_DIR + "/*.mol — do not edit.",
+    R = ["// GENERATED by bin/gen.d/schemas.py from util/gen-types/schemas/*.mol of the repository tree — do not edit.",
          "#![allow(non_snake_case, unused_variables, unused_imports, clippy::all)]",
          "use super::{Val, K};",
          "use ckb_gen_types::packed;",
